@@ -109,6 +109,13 @@ def canon_state(c, sheet):
     return 'V=%s R=%s T=%s W=%s' % (d, rules, ';'.join(texts) or '_', wf or '_')
 
 
+def prop_state(st):
+    """the canonical state at the level of the property: an empty prefix item in the seq of an @namespace rule
+    writes nothing and means nothing"""
+    import re
+    return re.sub(r'(?<=[:+])p-\+|\+p-(?=[;+ ])', '', st)
+
+
 def split_state(st):
     return dict(w.split('=', 1) for w in st.split(' '))
 
@@ -128,11 +135,13 @@ class Impl:
     def reset(self):
         self.sheet = self.c.css.CSSStyleSheet()
 
+    raising = True
+
     def apply(self, op):
         """returns the outcome word"""
         c = self.c
         old = c.log.raiseExceptions
-        c.log.raiseExceptions = True
+        c.log.raiseExceptions = self.raising
         try:
             with time_limit(20):
                 ret = self._apply(op)
@@ -186,6 +195,15 @@ class Impl:
         if k == 'insstyle':
             _, sels, idx, io = op
             return s.insertRule(G.render_sels(sels) + ' { x: 1 }', idx, io)
+        if k == 'setnstext':
+            s.cssRules[op[1]].cssText = G.render_ns(op[2], op[3], op[4])
+            return None
+        if k == 'rawdel':
+            if op[2] == 'pop':
+                s.cssRules.pop(op[1])
+            else:
+                del s.cssRules[op[1]]
+            return None
         if k == 'insobj':
             _, sels, nsdict, idx, io = op
             rule = c.css.CSSStyleRule(selectorText=(G.render_sels(sels), dict(nsdict)), style='x: 1')
@@ -278,6 +296,9 @@ class C15(Check):
             hist.append(('boundary', h))
         ctx.phase(self.run_histories, ctx, c, hist, rng, generate=ctx.n(2000, 25000))
         ctx.phase(self.corr_detached, ctx, c, rng)
+        ctx.phase(self.oracle_logmode, ctx, c, ctx.sub_rng('c15-logmode'))
+        ctx.phase(self.oracle_media_insert, ctx, c, ctx.sub_rng('c15-media'))
+        ctx.phase(self.oracle_comment_after_prefix, ctx, c, ctx.sub_rng('c15-comment'))
         # report the smallest failing history first
         ctx.violations.sort(key=lambda v: len(json.dumps(v['witness'], default=repr)))
         ctx.disagreements.sort(key=lambda d: len(json.dumps(d['input'], default=repr)))
@@ -356,6 +377,12 @@ class C15(Check):
         soft = []        # (clause, detail, finding id): violations inside a state-defined region, no taint
         if outcome.startswith('exc:'):
             bad.append(('a namespace operation raises only documented DOM exceptions', {'outcome': outcome}))
+        # attachment decides whose namespaces a rule resolves and serialises with, and which sheet a prefix setter
+        # checks: every rule that is in cssRules belongs to this sheet (also after a rejected, rolled-back call)
+        loose = [(i, r.type) for i, r in enumerate(sheet.cssRules) if r.parentStyleSheet is not sheet]
+        if loose:
+            bad.append(('every rule in cssRules is attached to the sheet (parentStyleSheet)',
+                        {'index_and_type_of_detached_rules': loose}))
         pairs = sheet_pairs(sheet)
         mapping = dict(sheet.namespaces.items())
         want = spec_view(pairs)
@@ -367,7 +394,7 @@ class C15(Check):
         missing = sorted(u for u in used if u != '' and u not in mapping.values())
         if missing:
             bad.append(('every namespace URI used by a selector is declared', {'undeclared': missing, 'mapping': mapping}))
-        if op[0] in ('insns', 'insnstext', 'setns', 'delns', 'setprefix') or \
+        if op[0] in ('insns', 'insnstext', 'setns', 'delns', 'setprefix', 'setnstext') or \
                 (op[0] == 'delrule' and outcome.startswith('err')):
             if items != pre_items:
                 bad.append(('a namespace operation does not change the (URI, name) pairs stored in selectors',
@@ -444,6 +471,118 @@ class C15(Check):
             ctx.violate(clause, wit, detail, known=kid)
         return kid or 'unattributed'
 
+    # -- the error mode does not decide what a call does to the sheet ---------------------------------
+    def oracle_logmode(self, ctx, c, rng):
+        """the same history on two sheets, once with cssutils.log.raiseExceptions = True and once with False
+        (errors only logged): after every operation both sheets are in the same state — a call that is rejected
+        when raising changes nothing when the error is only logged"""
+        a, b = Impl(c), Impl(c)
+        b.raising = False
+        for _ in range(ctx.n(250, 4000)):
+            a.reset()
+            b.reset()
+            gen = G.HistoryGen(rng)
+            gen.bind(a)
+            done = []
+            for op in gen:
+                pre_ns = ns_info(a.sheet)
+                oa = a.apply(op)
+                ob = b.apply(op)
+                sa, sb = prop_state(canon_state(c, a.sheet)), prop_state(canon_state(c, b.sheet))
+                done.append(G.to_json_op(op))
+                ctx.case(key=('logmode', sa, G.op_line(op)), nontrivial=oa.startswith('err'),
+                         kind='logmode:%s:%s' % (op[0], oa.split(':')[0]))
+                if ob.startswith('exc:'):
+                    ctx.violate('a namespace operation raises only documented DOM exceptions',
+                                {'ops': list(done), 'raiseExceptions': False}, {'outcome': ob})
+                    break
+                if sa != sb:
+                    kid = None
+                    if op[0] == 'setnstext' and any(j == op[1] and u != op[3] for j, p, u, t0 in pre_ns):
+                        kid = 'C15-logmode-csstext-partial'
+                    ctx.violate('what an operation does to the sheet does not depend on the error mode: a call that is '
+                                'rejected with raiseExceptions=True changes nothing when the error is only logged',
+                                {'ops': list(done), 'raiseExceptions': False},
+                                {'outcome_raising': oa, 'outcome_logging': ob, 'state_raising': sa, 'state_logging': sb},
+                                known=kid)
+                    break
+
+    # -- a selector means the same inside @media as at the top level of the same sheet ------------------
+    def oracle_media_insert(self, ctx, c, rng):
+        old = c.log.raiseExceptions
+        c.log.raiseExceptions = True
+        try:
+            for _ in range(ctx.n(300, 5000)):
+                start = G.gen_start(rng)
+                src = [r for r in start[2] if r[0] != 'media'] + [('media', [[[('q', 't', 'N', 'z')]]])]
+                text = G.render_src(src)
+                s1 = Impl(c).parser.parseString(text)
+                s2 = Impl(c).parser.parseString(text)
+                declared = [p for p in dict(s1.namespaces.items())]
+                sels = G.gen_sels(rng, G.pick_prefixes(rng, declared), bad=0)
+                rule_text = G.render_sels(sels) + ' { x: 1 }'
+                media = [r for r in s1.cssRules if r.type == r.MEDIA_RULE]
+                if not media:
+                    continue
+
+                def run(f):
+                    try:
+                        f()
+                        return 'ok'
+                    except xml.dom.DOMException as e:
+                        return 'err:' + type(e).__name__
+                    except Exception as e:
+                        return 'exc:' + type(e).__name__
+                o1 = run(lambda: media[0].insertRule(rule_text))
+                o2 = run(lambda: s2.insertRule(rule_text))
+                it1 = sheet_items(s1)[-1] if o1 == 'ok' else None
+                it2 = sheet_items(s2)[-1] if o2 == 'ok' else None
+                wit = {'sheet': text, 'call': 'sheet.cssRules[i].insertRule(%r) on the @media rule' % rule_text}
+                ctx.case(key=('media-insert', text, rule_text), nontrivial=bool(declared), kind='media-insert:' + o1,
+                         sample=wit)
+                if (o1, it1) != (o2, it2):
+                    kid = 'C15-media-insert-string' if declared else None
+                    ctx.violate('a selector inserted into an @media rule resolves its prefixes and the default namespace '
+                                'as the same selector inserted at the top level of the same sheet does', wit,
+                                {'in_media': [o1, it1], 'top_level': [o2, it2],
+                                 'namespaces': dict(s1.namespaces.items())}, known=kid)
+        finally:
+            c.log.raiseExceptions = old
+
+    # -- a comment is not part of a name ---------------------------------------------------------------
+    def oracle_comment_after_prefix(self, ctx, c, rng):
+        old = c.log.raiseExceptions
+        c.log.raiseExceptions = True
+        try:
+            for _ in range(ctx.n(600, 10000)):
+                d = G.gen_dict(rng)
+                sel = G.gen_selector(rng, [p for p in d if p], bad=0)
+                cand = [i for i, it in enumerate(sel) if it[0] == 'q' and it[2] != 'N']
+                if not cand:
+                    continue
+                k = rng.choice(cand)
+                plain = G.render_sel(sel)
+                commented = ''.join(G.render_ps(it[2]) + '/*c*/' + it[3] if i == k else G.render_item(it)
+                                    for i, it in enumerate(sel))
+
+                def items(text):
+                    try:
+                        s = c.css.Selector((text, dict(d)))
+                        return [norm_item((i.type, i.value)) for i in s.seq if i.type != 'COMMENT']
+                    except xml.dom.DOMException as e:
+                        return 'err:' + type(e).__name__
+                a, b = items(plain), items(commented)
+                ctx.case(key=('comment', commented, tuple(sorted(d.items()))), nontrivial=True, kind='comment-after-prefix',
+                         sample={'selector': commented, 'namespaces': d})
+                if a != b and not (isinstance(b, str) and not isinstance(a, str)):
+                    # (being rejected because of the comment is the grammar's business, not a change of meaning)
+                    ctx.violate('a comment between a namespace prefix and the name does not change what the name denotes '
+                                '(an accepted selector has the same items as without the comment)',
+                                {'selector': commented, 'namespaces': d}, {'with_comment': b, 'without': a},
+                                known='C15-comment-after-prefix')
+        finally:
+            c.log.raiseExceptions = old
+
     # -- detached selectors: Selector((text, dict)) -------------------------------------------------
     def corr_detached(self, ctx, c, rng):
         lines, cases = [], []
@@ -488,6 +627,15 @@ class C15(Check):
         c = impl()
         self.kf = KnownRegions()
         w = finding['witness']['data']
+        if 'python' in w:
+            # a direct reproduction on the implementation: the snippet sets `fails` (True = still wrong)
+            env = {'cssutils': c}
+            old = c.log.raiseExceptions
+            try:
+                exec(w['python'], env)
+            finally:
+                c.log.raiseExceptions = old
+            return bool(env.get('fails'))
         if 'selector' in w:
             s = c.css.Selector((w['selector'], dict(w['namespaces'])))
             s2 = c.css.Selector((s.selectorText, dict(w['namespaces'])))
@@ -598,6 +746,12 @@ class KnownRegions:
     def classify(self, op, pre_map, pre_ns, outcome, changed):
         """operation-defined regions: (operation, state before it) -> finding id"""
         k = op[0]
+        if k == 'setnstext' and outcome.startswith('ok') and any(j != op[1] and p == op[2] for j, p, u, t0 in pre_ns):
+            return 'C15-csstext-prefix-collision'
+        if k == 'rawdel' and outcome.startswith('ok'):
+            hit = [u for j, p, u, t0 in pre_ns if j == op[1]]
+            if hit and [u for j, p, u, t0 in pre_ns].count(hit[0]) == 1:
+                return 'C15-rulelist-bypass'
         if k == 'insobj':
             d = dict(op[2])
             uris = set()
